@@ -11,3 +11,26 @@ Theorem C13_run_after_reset : forall dict chunks term,
   (rbytes (rrun dict chunks term), rerror (rrun dict chunks term)) = final_obs dict (concat chunks) term.
 Proof. exact (rrun_spec inflate_mono inflate_never_fuel). Qed.
 Print Assumptions C13_run_after_reset.
+
+(* ---- the same property on the faithful engine model (RModel/Engine.v + EngineReset.v: the Go
+   decoder's state with every table, the 64 KiB+ window, bufio, Read/step, and Reset as reader.go
+   writes it -- which clears only part of that state).  Whatever happened before Reset (stream
+   valid, truncated, corrupt or abandoned anywhere; any buffer size, delivery schedule and Read
+   sizes), the observations of every Read after Reset and the number of bytes taken from the new
+   source are those of a new Reader on that source. *)
+From Verif Require Import Engine EngineReset EngineResetSpec EngineResetProofs.
+Theorem C13_engine_reset_equiv :
+  forall (bufsize1 : N) (chunks1 : list (list N)) (term1 : terminal) (reads1 : list N)
+         (bufsize2 : N) (chunks2 : list (list N)) (term2 : terminal) (reads2 : list N),
+    let '(_, l2, n2) := erun2 bufsize1 chunks1 term1 reads1 bufsize2 chunks2 term2 reads2 in
+    (l2, n2) = erun_ext bufsize2 chunks2 term2 reads2.
+Proof. exact reset_equiv. Qed.
+Print Assumptions C13_engine_reset_equiv.
+(* the line-protocol entry points the correspondence run evaluates *)
+Theorem C13_engine_reset_equiv_obs :
+  forall (bufsize1 : N) (chunks1 : list (list N)) (term1 : bool) (reads1 : list N)
+         (bufsize2 : N) (chunks2 : list (list N)) (term2 : bool) (reads2 : list N),
+    let '(_, l2, n2) := erun2_obs bufsize1 chunks1 term1 reads1 bufsize2 chunks2 term2 reads2 in
+    (l2, n2) = erun_obs bufsize2 chunks2 term2 reads2.
+Proof. exact reset_equiv_obs. Qed.
+Print Assumptions C13_engine_reset_equiv_obs.
